@@ -60,7 +60,13 @@ func (s BasicPrivateTokenRequestState) FinalizeToken(tokenResponseEnc []byte) (t
 		return tokens.Token{}, err
 	}
 
-	tokenData := append(s.tokenInput, outputs[0]...)
+	// built in fresh storage: tokenInput has spare capacity, and the token
+	// returned below points into tokenData - appending in place would make
+	// every token from this state share memory with the state and with each
+	// other
+	tokenData := make([]byte, 0, len(s.tokenInput)+len(outputs[0]))
+	tokenData = append(tokenData, s.tokenInput...)
+	tokenData = append(tokenData, outputs[0]...)
 	token, err := UnmarshalPrivateToken(tokenData)
 	if err != nil {
 		return tokens.Token{}, err
